@@ -64,13 +64,15 @@ ASSUMPTIONS = [
     "seed sensitivity (another seed gives another output) is evidence that the workload draws at all, never a verdict",
     "whether an instance can be deep-copied / pickled at all is not judged (counted as handles_not_copyable); only copies that exist must continue like the original",
     "member lists are edited through the public `transforms` attribute before the generator is injected",
+    "ctx=None vs ctx=dict: only outputs are compared for calls without a ctx dict; a recorded parameter is checked against the applied one "
+    "only for the threshold family, where it can be decoded from the output (and only if the transform records it at all)",
     "scale_strength histories are only driven on trees all of whose leaves scale without refusing / mis-scaling (no KDRandomRotation, no "
     "KDColorJitter family); both twins end at the same strength",
     "loader scenario: fork start method, sequential sampler, in-order delivery (torch defaults): batch j is produced by worker j % num_workers; "
     "trees with a KDScheduledTransform that never received its progress arguments are not sent into workers (its own assertion refuses)",
 ]
 MONITORS = ["instance_pairs_compared", "outputs_compared", "ctx_entries_compared", "replays_compared", "sentinel_windows", "injection_windows",
-            "copy_windows", "copied_handles_compared", "edited_member_lists", "strength_histories", "loader_runs", "loader_samples_compared",
+            "copy_windows", "copied_handles_compared", "calls_without_ctx_compared", "edited_member_lists", "strength_histories", "loader_runs", "loader_samples_compared",
             "seed_sensitive_cases", "histories_before_injection"]
 
 BOUNDARY_SEEDS = [0, 1, 5, 2 ** 32 - 1, 2 ** 32, 2 ** 63 - 1]
@@ -107,7 +109,8 @@ def _case(rng, tree, T):
         "tree": tree, "in": T, "x_seeds": [rng.randrange(10 ** 6) for _ in range(n)], "s": s, "s_alt": s_alt, "g": [g1, g2],
         "perturb": [rng.randrange(2 ** 31) for _ in range(4)], "hist": hist,
         # second handles (copy.deepcopy / pickle round trip of the injected instance) are taken before call number `at`
-        "handle": {"at": rng.choice([0, 0, rng.randrange(n)])},
+        # the deep copy is called WITHOUT a ctx dict (ctx=None on every call, or alternating): recording must not change the stream
+        "handle": {"at": rng.choice([0, 0, rng.randrange(n)]), "ctx": rng.choice(["none", "none", "mixed"])},
     }
 
 
@@ -161,6 +164,13 @@ def gen_cases(run):
                 if not H.has_stochastic_leaf(tree):
                     spec["_trivial"] = True
                 yield spec
+                if rep == 0 and name in H.BOUNDARY_PARAMS:
+                    for over in H.BOUNDARY_PARAMS[name]():
+                        btree = {"t": "leaf", "recipe": name, "params": dict(o[0], **over), "in": T}
+                        bspec = _case(rng, btree, T)
+                        bspec["x_seeds"] = (bspec["x_seeds"] * 3)[:3]  # >= 3 consecutive calls
+                        bspec["x_seeds"] = [x + k for k, x in enumerate(bspec["x_seeds"])]
+                        yield bspec
     # (3) loader scenario (few: every run forks worker processes) - first, so that a time budget cannot starve it
     yield from _gen_loader_cases(run, flags)
     # (2) random compositions
@@ -228,8 +238,8 @@ def _has(tree, kind):
     return any(n["t"] == kind for n in H.iter_nodes(tree))
 
 
-def _call(col, t, x, phase):
-    ctx = {}
+def _call(col, t, x, phase, use_ctx=True):
+    ctx = {} if use_ctx else None
     ok, out = call_real(col, lambda: t(x, ctx), crash_key=f"{phase}-crash", what=f"{phase}: calling the transform")
     return ok, out, ctx
 
@@ -349,17 +359,22 @@ def evaluate(spec, stats=None, until=PH_EVIDENCE):
     if until < PH_PAIR:
         return None
 
-    def one(t, tag, i, pbase, phase):
+    def one(t, tag, i, pbase, phase, use_ctx=True):
         """one observed call: perturb the global RNGs, snapshot, call, snapshot -> (canon(out), canon(ctx)) | finding"""
         _seed_globals(pert[(pbase + i) % len(pert)] + 17 * i + pbase)
         if (pbase + i) % 2:
             np.random.random(3)  # different amounts of global draws before the call as well
         before = S.snapshot()
-        ok_, out, ctx = _call(col, t, H.clone_input(inputs[i]), "call")
+        ok_, out, ctx = _call(col, t, H.clone_input(inputs[i]), "call", use_ctx)
         after = S.snapshot()
         if not ok_:
             return fail(phase, "call")
         bump("sentinel_windows")
+        if ctx is None:
+            return canon_value(out), None
+        f_ = _decode_recorded(tree, inputs[i], out, ctx, bump)
+        if f_ is not None:
+            return dict(f_, phase=phase)
         d = S.diff(before, after)
         if d:
             return {"kind": f"global-rng-consumed:{'+'.join(d)}", "phase": phase,
@@ -394,10 +409,20 @@ def evaluate(spec, stats=None, until=PH_EVIDENCE):
         if isinstance(a, dict):
             return a
         for k, (mode, c) in enumerate(handles):
-            r_ = one(c, f"{mode} of A", i, 4 + k, PH_PAIR)
+            # the deep copy runs without a ctx dict (always / on alternating calls): only its outputs can be compared
+            with_ctx = mode != "deepcopy" or (hs.get("ctx") == "mixed" and (i - hs["at"]) % 2 == 1) or hs.get("ctx") is None
+            r_ = one(c, f"{mode} of A", i, 4 + k, PH_PAIR, use_ctx=with_ctx)
             if isinstance(r_, dict):
                 return r_
             bump("copied_handles_compared")
+            if not with_ctx:
+                bump("calls_without_ctx_compared")
+                if r_[0] != a[0]:
+                    return {"kind": "ctx-recording-changes-stream", "phase": PH_PAIR,
+                            "what": f"two equally seeded handles of one instance (set_rng(default_rng({spec['s']}))) disagree on the output of call {i}: "
+                                    f"the original is called with a ctx dict, the copy with ctx=None ({hs.get('ctx')}, since call {hs['at']}) - recording "
+                                    f"the context must not consume or change the random stream"}
+                continue
             if r_ != a:
                 part = "output" if r_[0] != a[0] else "recorded ctx"
                 return {"kind": "copied-instance-diverges", "phase": PH_PAIR,
@@ -445,6 +470,27 @@ def evaluate(spec, stats=None, until=PH_EVIDENCE):
         if r_ != ra[i]:
             bump("seed_sensitive")
             break
+    return None
+
+
+def _decode_recorded(tree, x, out, ctx, bump):
+    """where the applied parameter can be decoded from the output, a recorded parameter must be the applied one.
+    threshold family (`x[x < thr] = 0`): zeroed positive pixels lie below the recorded threshold, surviving ones do not."""
+    if tree["t"] != "leaf" or tree["recipe"] not in ("threshold", "random_threshold") or not torch.is_tensor(out):
+        return None
+    keys = [k for k in ctx if str(k).endswith(".threshold")]
+    if not keys or out.shape != x.shape:
+        return None
+    v = float(ctx[keys[0]])
+    if v < 0:  # "skipped" marker of the random-apply family
+        return None
+    bump("recorded_parameters_decoded")
+    zeroed = x[(out == 0) & (x > 0)]
+    kept = x[out != 0]
+    if (zeroed.numel() and float(zeroed.max()) >= v) or (kept.numel() and float(kept.min()) < v):
+        return {"kind": "recorded-parameter-not-applied",
+                "what": f"ctx[{keys[0]!r}] = {v} but the output was thresholded elsewhere: largest zeroed pixel "
+                        f"{float(zeroed.max()) if zeroed.numel() else None}, smallest surviving pixel {float(kept.min()) if kept.numel() else None}"}
     return None
 
 
